@@ -1029,85 +1029,55 @@ def json_const(op):
 # ------------------------------------------------------------------ C04
 
 def layout_rule(crate, prop, rule="C04.R1"):
-    from vlib import mirlib as M
-    from vlib.mirlib import fn_matches
-    r = Result(rule, "file layout by dominance in export_to_string: the notice is the first write, then generate_imports, then generate_decl, then a final newline on every Ok path; in generate_decl: docs (if any), then `export `, then T::decl()")
+    from vlib import symstr as SS
+    r = Result(rule, "the text export_to_string returns, read off the MIR as an ordered sequence of pieces (buffer writes, format!/concat/join, helpers that write into the buffer or return a String expanded): NOTE, then what generate_imports writes, then the type's DOCS, the literal `export `, the text derived from T::decl(), and a final newline - nothing else, in this order")
     b = crate.body("export::export_to_string")
     if b is None:
         r.fail(prop, "anchor-missing export_to_string", "not found")
         return r
+    atoms = SS.expand(crate, SS.Sym(crate, b).returned(), stop=[r"generate_imports$"])
     seq = []
-    for blk, t in b.calls():
-        if b.is_cleanup(blk):
-            continue
-        if fn_matches(t, r"string::String::push_str$"):
-            c = M.op_const(t["args"][1]) if len(t["args"]) > 1 else None
-            org = M.origins(b, M.op_local(t["args"][1])) if len(t["args"]) > 1 and M.op_local(t["args"][1]) is not None else []
-            is_note = any(o["kind"] == "const" and (o["c"] or {}).get("uneval", "").endswith("NOTE") or (o["kind"] == "const" and "NOTE" in ((o["c"] or {}).get("dbg") or "")) for o in org) or (c and "NOTE" in (c.get("dbg") or ""))
-            seq.append(("note" if is_note else "push_str", blk))
-        elif fn_matches(t, r"export::generate_imports$"):
-            seq.append(("imports", blk))
-        elif fn_matches(t, r"export::generate_decl$"):
-            seq.append(("decl", blk))
-        elif fn_matches(t, r"string::String::push$"):
-            c = M.op_const(t["args"][1]) if len(t["args"]) > 1 else None
-            seq.append(("newline" if c and c.get("int") == 10 else "push", blk))
-    kinds = {k: blk for k, blk in seq}
-    r.inst(fn=b.path, writes=[k for k, _ in seq])
-    need = ["note", "imports", "decl", "newline"]
-    for k in need:
-        if k not in kinds:
-            r.fail(prop, "layout-missing %s" % k, "export_to_string has no `%s` step" % k, b.file(), b.line())
-    if all(k in kinds for k in need):
-        for a, c in zip(need, need[1:]):
-            ok = b.dominates(kinds[a], kinds[c])
+    for a in atoms:
+        if a[0] == "named" and re.search(r"(^|::)NOTE$", a[1]):
+            seq.append("note")
+        elif a[0] == "call" and re.search(r"generate_imports$", a[1]):
+            seq.append("imports")
+        elif a[0] == "named" and re.search(r"::DOCS$", a[1]):
+            seq.append("docs")
+        elif a[0] == "lit":
+            seq.append("lit:" + a[1])
+        elif SS.mentions(a, r"TS::decl$"):
+            seq.append("decl")
+        elif a[0] in ("named", "derived") and SS.mentions(a, r"::DOCS$"):
+            seq.append("docs")
+        else:
+            seq.append("?" + (a[1] if isinstance(a[1], str) else str(a[1]))[:60])
+    r.inst(fn=b.path, pieces=seq)
+    unknown = [x for x in seq if x.startswith("?")]
+    if unknown:
+        r.fail(prop, "anchor-missing file layout", "the text export_to_string returns could not be read as a sequence of known pieces (%s)" % unknown, b.file(), b.line())
+        r.floor = 1
+        return r
+    for k in ("note", "imports", "decl"):
+        if k not in seq:
+            r.fail(prop, "layout-missing %s" % k, "export_to_string has no `%s` piece (pieces: %s)" % (k, seq), b.file(), b.line())
+    if not seq or seq[-1] != "lit:\n":
+        r.fail(prop, "layout-missing newline" if "lit:\n" not in seq else "layout-after-newline export_to_string", "the file does not end with the single final newline (pieces: %s)" % seq, b.file(), b.line())
+    want = ["note", "imports", "docs", "lit:export ", "decl", "lit:\n"]
+    have = [x for x in seq if x in want]
+    for a, c in zip(want, want[1:]):
+        if a in have and c in have:
+            ok = have.index(a) < have.index(c) and have.count(a) == 1 and have.count(c) == 1
             r.inst(order="%s before %s" % (a, c), ok=ok)
             if not ok:
-                r.fail(prop, "layout-order %s/%s" % (a, c), "`%s` does not dominate `%s` in export_to_string" % (a, c), b.file(), b.line())
-        extra = [k for k, _ in seq if k in ("push_str", "push")]
-        if extra:
-            r.fail(prop, "layout-extra-write export_to_string", "additional raw writes to the buffer: %s" % extra, b.file(), b.line())
-        # newline is the last write on Ok paths: no write reachable after it
-        after = b.reachable_from([b.term(kinds["newline"])["target"]])
-        late = [k for k, blk in seq if blk in after and blk != kinds["newline"]]
-        if late:
-            r.fail(prop, "layout-after-newline export_to_string", "writes after the final newline: %s" % late, b.file(), b.line())
-    g = crate.ibody("export::generate_decl")
-    if g is None:
-        r.fail(prop, "anchor-missing generate_decl", "not found")
-        return r
-    steps = []
-    for blk, t in g.calls():
-        if g.is_cleanup(blk):
-            continue
-        if fn_matches(t, r"string::String::push_str$"):
-            c = M.op_const(t["args"][1]) if len(t["args"]) > 1 else None
-            org0 = M.origins(g, M.op_local(t["args"][1])) if len(t["args"]) > 1 and M.op_local(t["args"][1]) is not None else []
-            cs = [o["c"] for o in org0 if o["kind"] == "const" and o["c"] and o["c"].get("str") is not None]
-            if c is None and len(cs) == 1 and len(org0) == 1:
-                c = cs[0]
-            if c and c.get("str") is not None:
-                steps.append(("lit:" + c["str"], blk))
-            else:
-                org = M.origins(g, M.op_local(t["args"][1]))
-                if any(o["kind"] == "call" and fn_matches(o["t"], r"TS::decl$") for o in org):
-                    steps.append(("decl", blk))
-                else:
-                    steps.append(("docs", blk))
-        elif fn_matches(t, r"TS::decl$"):
-            steps.append(("call-decl", blk))
-    km = {}
-    for k, blk in steps:
-        km.setdefault(k, blk)
-    r.inst(fn=g.path, steps=[k for k, _ in steps])
-    ok = "lit:export " in km and "decl" in km and g.dominates(km["lit:export "], km["decl"]) and \
-        ("docs" not in km or km["docs"] not in g.reachable_from([km["lit:export "]]))
-    if not ok:
-        r.fail(prop, "decl-layout generate_decl", "generate_decl does not write [docs] `export ` decl in this order (steps: %s)" % [k for k, _ in steps], g.file(), g.line())
-    lits = [k for k, _ in steps if k.startswith("lit:")]
-    if lits != ["lit:export "]:
-        r.fail(prop, "decl-layout-literals generate_decl", "unexpected literal writes %s" % lits, g.file(), g.line())
-    r.floor = 5
+                r.fail(prop, "layout-order %s/%s" % (a.replace("lit:", "").strip() or "newline", c.replace("lit:", "").strip() or "newline"),
+                       "`%s` is not written (once) before `%s` (pieces: %s)" % (a, c, seq), b.file(), b.line())
+    if "decl" in seq and (seq.index("decl") == 0 or seq[seq.index("decl") - 1] != "lit:export "):
+        r.fail(prop, "decl-layout generate_decl", "the declaration is not directly preceded by the literal `export ` (pieces: %s)" % seq, b.file(), b.line())
+    extra = [x for x in seq if x not in want]
+    if extra:
+        r.fail(prop, "layout-extra-write export_to_string", "additional pieces in the file text: %s" % extra, b.file(), b.line())
+    r.floor = 1
     return r
 
 
